@@ -330,6 +330,15 @@ theorem ip6_collision_witness :
     ip6Mapping (after E cfg h) = [("a::2".toList, "a::3".toList), ("a::1".toList, "a::2".toList)] := by
   decide
 
+/-- known finding `ip-substitute-glued-digit` (round 10, thorough tier): the IPv4 pattern has no right boundary, so on the
+token `1.2.3.45` it may hand over `1.2.3.4`; `line.replace` writes the substitute `10.230.230.1` in front of the left-over
+digit and the text that comes out, `10.230.230.15`, is the substitute `start + 14` that another original gets -/
+theorem ip_glued_digit_witness :
+    let E := witnessEnv0 ["1.2.3.4".toList]
+    let r := ipStage E {} "1.2.3.45".toList
+    r.2 = int2ip (startIp + 14) ∧ ipMapping r.1 = [("1.2.3.4".toList, "10.230.230.1".toList)] := by
+  decide
+
 /-! ### width-preserving mode and calls that raise
 
 `runHistoryW` mixes ordinary calls with `width=True` calls; a width call may RAISE (`none`: the spec is not emitted)
